@@ -29,7 +29,7 @@ def accumulations(b, tm, blocks):
         p = s["place"]
         proj = p.get("p") or []
         names = [e.get("n") for e in proj if e["k"] == "field" and e.get("n")]
-        if not names or names[-1] not in ("free_frames", "free_trees", "alloc_frames"):
+        if not names or names[-1] not in ("free_frames", "free_trees", "alloc_frames", "free_huge"):
             continue
         rv = tm.rvalue(s["rv"])
         self_t = tm.place(p)
@@ -226,6 +226,13 @@ def run(rep, programs):
               "Locals::stats total is fed by %s" % ([x[1] for x in tf],), b.span)
     rep.check(len(cf) == 1 and local_free(cf[0][1]), rule, "Locals::stats|class-free", "classes[class].free_frames += reservation.free()",
               "Locals::stats per-class free is fed by %s" % ([x[1] for x in cf],), b.span)
+    lft = lby.get("free_trees", [])
+    good = False
+    if len(lft) == 1 and lft[0][1] is not None and lft[0][1][1] == 0 and len(lft[0][1][0]) == 1:
+        (a, v), = lft[0][1][0].items()
+        good = v == 1 and a[0] == "bin" and a[1] == "Div" and a[3] == ("c", TF) and a[2][0] == "call" and a[2][1] == "llfree::local::LocalTree::free"
+    rep.check(good, rule, "Locals::stats|free_trees", "free_trees += reservation.free() / TREE_FRAMES",
+              "Locals::stats counts entirely free reserved trees as %s" % ([x[1] for x in lft],), b.span)
     if tf and cf:
         # same control conditions (only `present()`), so the per-class free counts sum to the total
         c1 = {(T.show(tm.operand(b.term(s)["discr"])), lib.bool_edge_polarity(b, s, d)) for s, d in lib.controlling_edges(b, tf[0][0])}
